@@ -64,6 +64,20 @@ def _is_weight(v: Term) -> bool:
     return is_matrix_read(v) or is_metric_call(v) or as_selector(v) is not None
 
 
+def _nan_as_empty(v: Term) -> Term:
+    """`FLOAT_MAX if isnan(d) else d` written to the scratch slot is `d` for the scan: a NaN candidate never leaves the
+    scratch slot (every `<` with it is false), neither does FLOAT_MAX (the mark of an empty slot), and the scratch slot is
+    not among the k that are read."""
+    isnan = lambda c: c[0] == "call" and c[1] in (("mod", "numpy.isnan"), ("mod", "math.isnan")) and len(c[2]) == 1 and not c[3]
+    if v is not None and v[0] == "sel":
+        c, a, b = v[1], v[2], v[3]
+        if isnan(c) and a == K("FLOAT_MAX") and c[2][0] == b:
+            return b
+        if c[0] == "not" and isnan(c[1]) and b == K("FLOAT_MAX") and c[1][2][0] == a:
+            return a
+    return v
+
+
 def _bubble_view(w: Walker, li: LoopInfo):
     """(cvar name, current slot term, bound ok?, other continuation tests, start) or None."""
     from .ir import facts
@@ -121,9 +135,11 @@ def find_knn_scans(w: Walker) -> List[KnnScan]:
         slot = start
         scan = KnnScan(w, per, cand, li, D, None, slot, cvar)
         scan.c, scan.bound_ok, scan.tests, scan.start = c, bound_ok, tests, start
+        import dataclasses
         for e in w.events:
-            if e.kind == "store" and e.loops == li.loops and e.target == ("idx", D, slot) and _is_weight(e.value):
-                scan.weight_stores.append(e)
+            if e.kind == "store" and e.loops == li.loops and e.target == ("idx", D, slot) and _is_weight(_nan_as_empty(e.value)):
+                scan.weight_stores.append(e if _nan_as_empty(e.value) == e.value else
+                                          dataclasses.replace(e, value=_nan_as_empty(e.value)))
         for e in w.events:
             if e.kind == "store" and e.loops == li.loops and e.target[0] == "idx" and e.target[2] == slot \
                     and e.target[1] != D and e.target[1][0] == "alloc" and e.value == scan.j:
